@@ -861,3 +861,115 @@ Proof.
   rewrite (exec_hget_spec _ _ _ _ _ (hash_or_empty_of_field _ _ _ _ F4)). cbn [fst].
   unfold hfield in F4. rewrite F4. reflexivity.
 Qed.
+
+(* ------------------------------------------------------------------ remaining per-command clauses *)
+Theorem exec_hsetnx_spec d c k f v h : hash_or_empty d k = Some h ->
+  exec_hsetnx d [c; k; f; v] =
+  if amem f h then (RInt 0, d) else (RInt 1, db_set d k (VHash (aset f v h))).
+Proof. intros H. unfold exec_hsetnx. rewrite H. destruct (amem f h); reflexivity. Qed.
+
+Theorem exec_hmget_spec d c k f fs h : hash_or_empty d k = Some h ->
+  exec_hmget d (c :: k :: f :: fs) = (RArr (map (fun x => bulk_opt (hview h x)) (f :: fs)), d).
+Proof. intros H. unfold exec_hmget. rewrite H. reflexivity. Qed.
+
+Theorem exec_reads_spec d c k f h : hash_or_empty d k = Some h ->
+  exec_hgetall d [c; k] = (RArr (flat_pairs h), d) /\
+  exec_hkeys d [c; k] = (RArr (map (fun p => RBulk (fst p)) h), d) /\
+  exec_hvals d [c; k] = (RArr (map (fun p => RBulk (snd p)) h), d) /\
+  exec_hlen d [c; k] = (RInt (zlength h), d) /\
+  exec_hexists d [c; k; f] = (RInt (if hview h f then 1 else 0), d) /\
+  exec_hstrlen d [c; k; f] = (RInt (match hview h f with Some v => zlength v | None => 0 end), d).
+Proof.
+  intros H. unfold exec_hgetall, exec_hkeys, exec_hvals, exec_hlen, exec_hexists, exec_hstrlen, hview, amem.
+  rewrite H. repeat split; destruct (alookup f h); reflexivity.
+Qed.
+
+Lemma alookup_all_none {A} (l : list (bytes * A)) : (forall f, alookup f l = None) -> l = [].
+Proof.
+  destruct l as [|[k v] r]; [reflexivity|]. intros H. specialize (H k). cbn in H.
+  rewrite bytes_eqb_refl in H. discriminate.
+Qed.
+
+(* HDEL: the reply counts the fields that existed, exactly those are gone, and a hash left
+   without fields ceases to exist together with its deadline *)
+Theorem exec_hdel_spec d c k f fs h :
+  get_hash d k = HFound h -> NoDup (akeys h) ->
+  exists h',
+    exec_hdel d (c :: k :: f :: fs) = (RInt (zlength h - zlength h'), put_hash d k h') /\
+    (forall x, hview h' x = if existsb (bytes_eqb x) (f :: fs) then None else hview h x) /\
+    (h' = [] -> db_get (put_hash d k h') k = None /\ db_ttl (put_hash d k h') k = None) /\
+    ((forall x, hview h x <> None -> In x (f :: fs)) -> h' = []).
+Proof.
+  intros H ND. exists (fst (hdel_all h (f :: fs) 0)). unfold exec_hdel. rewrite H.
+  destruct (hdel_all h (f :: fs) 0) as [h' n] eqn:S. cbn [fst].
+  pose proof (hdel_all_count (f :: fs) h 0 ND) as Cn. rewrite S in Cn. cbn [fst snd] in Cn.
+  assert (L : forall x, alookup x h' = if existsb (bytes_eqb x) (f :: fs) then None else alookup x h).
+  { intros x. change h' with (fst (h', n)). rewrite <- S. apply hdel_all_lookup. }
+  split; [|split; [|split]].
+  - f_equal. f_equal. lia.
+  - exact L.
+  - intros ->. cbn [put_hash]. split; [apply db_get_del_same|apply db_ttl_del_same].
+  - intros All. apply alookup_all_none. intros x. rewrite L.
+    destruct (existsb (bytes_eqb x) (f :: fs)) eqn:E; [reflexivity|].
+    destruct (alookup x h) eqn:Lx; [|reflexivity]. exfalso.
+    assert (In x (f :: fs)) as Hin by (apply All; unfold hview; rewrite Lx; discriminate).
+    assert (existsb (bytes_eqb x) (f :: fs) = true) as X.
+    { apply existsb_exists. exists x. split; [exact Hin|apply bytes_eqb_refl]. }
+    congruence.
+Qed.
+
+(* HINCRBY: exact integer addition, or an error that changes nothing *)
+Theorem exec_hincrby_spec d c k f n h delta : hash_or_empty d k = Some h -> atoi64 n = Some delta ->
+  exec_hincrby d [c; k; f; n] =
+  match hview h f with
+  | None => (RInt delta, db_set d k (VHash (aset f (z_to_dec delta) h)))
+  | Some b =>
+    match atoi64 b with
+    | None => (err_other, d)
+    | Some x => if in_int64 (x + delta)
+                then (RInt (x + delta), db_set d k (VHash (aset f (z_to_dec (x + delta)) h)))
+                else (err_other, d)
+    end
+  end.
+Proof. intros H A. unfold exec_hincrby, hview. rewrite A, H. reflexivity. Qed.
+
+Theorem exec_hincrby_badarg d c k f n : atoi64 n = None -> exec_hincrby d [c; k; f; n] = (err_other, d).
+Proof. intros A. unfold exec_hincrby. rewrite A. reflexivity. Qed.
+
+(* a key of another type: every hash command answers with an error and changes nothing *)
+Ltac wrong_err :=
+  repeat match goal with
+  | |- context [match ?x with _ => _ end] =>
+    destruct x eqn:?; try reflexivity; try congruence; try (cbn [nth] in *; congruence)
+  end.
+
+Theorem hashes_dispatch_wrongtype d now nowms n args hint r d' :
+  hash_or_empty d (key_of args) = None ->
+  hashes_dispatch d now nowms n args hint = Some (r, d') -> is_err r = true /\ d' = d.
+Proof.
+  intros HW H.
+  assert (E : is_err r = true).
+  { assert (GW : get_hash d (key_of args) = HWrong).
+    { unfold hash_or_empty in HW. destruct (get_hash d (key_of args)); try discriminate. reflexivity. }
+    unfold hashes_dispatch in H. unfold key_of in HW, GW.
+    repeat match type of H with
+    | (if ?c then _ else _) = _ => destruct c
+    end; try discriminate; inversion H as [E]; clear H;
+    match type of E with ?res = (r, d') => assert (R1 : r = fst res) by (rewrite E; reflexivity); rewrite R1 end;
+    clear E R1.
+    - unfold exec_hset. wrong_err.
+    - unfold exec_hsetnx. wrong_err.
+    - unfold exec_hget. wrong_err.
+    - unfold exec_hmget. wrong_err.
+    - unfold exec_hgetall. wrong_err.
+    - unfold exec_hkeys. wrong_err.
+    - unfold exec_hvals. wrong_err.
+    - unfold exec_hlen. wrong_err.
+    - unfold exec_hexists. wrong_err.
+    - unfold exec_hstrlen. wrong_err.
+    - unfold exec_hdel. wrong_err.
+    - unfold exec_hincrby. wrong_err.
+    - unfold exec_hincrbyfloat. wrong_err.
+    - unfold exec_hrandfield. wrong_err. }
+  split; [exact E|]. eapply hashes_dispatch_error_unchanged; eassumption.
+Qed.
